@@ -45,7 +45,7 @@ struct Case {
     /// 3: relative `./out/` from the sandbox
     out_mode: u8,
     out_exists: bool,
-    /// the output directory exists and already holds a symbolic link `lnk -> ../sibling` (a directory
+    /// the output directory exists and already holds a symbolic link `lnk -> ../out.old` (a sibling whose name extends the output directory's textually) (a directory
     /// outside): members below `lnk/` must be refused by the canonical-prefix check.  (Outside the
     /// model's assumption "no symbolic links below out": only the oracles are evaluated.)
     dir_symlink: bool,
@@ -304,10 +304,10 @@ fn make_sandbox() -> Sandbox {
     let root = tmp.path().canonicalize().expect("canonical tempdir");
     let sb = root.join("l1/l2/sb");
     std::fs::create_dir_all(sb.join("work")).unwrap();
-    std::fs::create_dir_all(sb.join("sibling")).unwrap();
+    std::fs::create_dir_all(sb.join("out.old")).unwrap();
     std::fs::write(sb.join("decoy.txt"), b"DECOY-1").unwrap();
     std::fs::write(sb.join("a"), b"DECOY-a").unwrap();
-    std::fs::write(sb.join("sibling/b"), b"DECOY-b").unwrap();
+    std::fs::write(sb.join("out.old/b"), b"DECOY-b").unwrap();
     std::fs::write(root.join("l1/decoy2"), b"DECOY-2").unwrap();
     std::fs::write(root.join("decoy3"), b"DECOY-3").unwrap();
     let out = sb.join("out");
@@ -387,7 +387,7 @@ fn execute(bin: &Path, case: &Case) -> Result<Outcome, String> {
         std::fs::create_dir(&sbx.out).map_err(|e| e.to_string())?;
     }
     if case.dir_symlink {
-        std::os::unix::fs::symlink("../sibling", sbx.out.join("lnk")).map_err(|e| e.to_string())?;
+        std::os::unix::fs::symlink("../out.old", sbx.out.join("lnk")).map_err(|e| e.to_string())?;
     }
     let (cwd, out_arg): (PathBuf, OsString) = match case.out_mode {
         0 => (sbx.root.clone(), sbx.out.clone().into_os_string()),
@@ -455,7 +455,7 @@ fn check_case(rep: &mut Report, model: &mut Model, bin: &Path, case: &Case, poli
     };
     if case.dir_symlink {
         let n0 = o.outside.len();
-        o.outside.retain(|(p, b, a)| !(b.is_none() && *a == Some(Entry::Dir) && p.starts_with(b"l1/l2/sb/sibling/")));
+        o.outside.retain(|(p, b, a)| !(b.is_none() && *a == Some(Entry::Dir) && p.starts_with(b"l1/l2/sb/out.old/")));
         if o.outside.len() != n0 {
             rep.count("note:directories-created-through-preexisting-symlink");
         }
